@@ -3,7 +3,8 @@ from props import element_common as ec
 
 NAMESPACE = 'C15'
 LEAN_TARGETS = ['MxV.Props.C15']
-THEOREMS = ['instance_replaces_or_adds', 'none_removes', 'value_sets_or_builds', 'unknown_name_is_attribute_error', 'element_names_no_underscore', 'attr_names_no_underscore', 'reserved_collisions']
+THEOREMS = ['instance_replaces_or_adds', 'none_removes', 'value_sets_or_builds', 'unknown_name_is_attribute_error', 'element_names_no_underscore', 'attr_names_no_underscore', 'reserved_collisions',
+            'normKey_under', 'normKey_idem', 'setAttr_spelling', 'setAttr_normalised', 'get_after_set', 'get_after_remove']
 TRUSTED_BASE = ['Lean 4.33.0 kernel', 'axioms: propext, Quot.sound, Classical.choice only (audited per theorem)',
                 'translator extract/*.py (attribute / validator / template tables regenerated every run)',
                 'correspondence harness: real XMLElement trees vs the Lean models Element, Values, Serialize, Parser, Mfull through mxdriver',
